@@ -123,6 +123,35 @@ func c08LexLines(input []byte, valid string) ([]string, c08Loaded) {
 		out = append(out, fmt.Sprintf("X load-%s => %s %s", strings.ToLower(ld.outcome), hexOrDash(input), strings.ReplaceAll(ld.msg, "\n", " ")))
 		return out, ld
 	}
+	// "never depends on anything but the bytes": loading the same bytes again gives the same error text / the same
+	// prototype (a Go map walked in its random order inside the front end shows here)
+	if len(src) <= 4096 {
+		again := 2
+		if strings.Contains(src, "goto") || strings.Contains(src, "::") {
+			again = 6
+		}
+		fp := func(l c08Loaded) string {
+			if l.outcome == "fn" && l.proto != nil {
+				var sb strings.Builder
+				dumpProto(l.proto, &sb, true)
+				return "fn " + sb.String()
+			}
+			return l.outcome + " " + l.msg
+		}
+		first := fp(ld)
+		for i := 0; i < again; i++ {
+			if nx := fp(c08Load(src)); nx != first {
+				if len(first) > 300 {
+					first = first[:300]
+				}
+				if len(nx) > 300 {
+					nx = nx[:300]
+				}
+				out = append(out, fmt.Sprintf("X load-nondeterministic => %s first=%s again=%s", hexOrDash(input), strings.ReplaceAll(first, " ", "_"), strings.ReplaceAll(nx, " ", "_")))
+				return out, ld
+			}
+		}
+	}
 	toks, p := c08Tokens(src)
 	if p != "" {
 		out = append(out, fmt.Sprintf("X scan-panic => %s %s", hexOrDash(input), strings.ReplaceAll(p, "\n", " ")))
@@ -721,6 +750,9 @@ func c08GotoForms() []string {
 		"::l1:: do goto l1 end", "do do goto l1; local b; local c; ::l1:: print(c) end end", "if x then goto l1; local b; ::l1:: print(b) end",
 		"if x then goto l1 else local b; ::l1:: print(b) end", "goto l1; local b = function() return b end; ::l1:: return b",
 		"do goto l2; local b; ::l1:: ::l2:: print(b) end", "do goto l1; ::l0:: local b; ::l1:: print(b); goto l0 end",
+		// several label-less gotos at once: which one the error names must be a function of the text
+		"goto n1 goto n2", "goto n1; do goto n2 end", "goto n1; goto n2; goto n3", "do goto n1 end do goto n2 end goto n3",
+		"if x then goto n1 else goto n2 end", "while x do goto n1 end repeat goto n2 until x goto n3; goto n4",
 	}
 	outers := []string{"%s", "local a; %s", "local a, b2, c2; %s", "for i = 1, 3 do %s end", "for k, v in pairs({}) do %s end",
 		"function f(p, q) %s end", "function f(...) %s end", "local function f(p) local q; do local r; %s end end",
